@@ -220,6 +220,193 @@ fn check_backend<R: Ring, G: GraphLike + ToCircuit>(
     Ok(())
 }
 
+// ------------------------------------------------------------------------------------------
+// wide circuits (7-9 qubits): full unitaries get expensive, so equivalence is probed on state
+// vectors: random product inputs (one vector = a generic combination of all columns), and for
+// the up-to-permutation mode single-excitation probes that read the permutation off exactly
+
+fn adjoint_model(c: &Circ) -> Circ {
+    use csim::GK;
+    let gates = c
+        .gates
+        .iter()
+        .rev()
+        .map(|g| {
+            let mut h = g.clone();
+            h.phase = (-g.phase.0, g.phase.1);
+            h.k = match g.k {
+                GK::S => GK::Sdg,
+                GK::Sdg => GK::S,
+                GK::T => GK::Tdg,
+                GK::Tdg => GK::T,
+                k => k,
+            };
+            h
+        })
+        .collect();
+    Circ { n: c.n, gates }
+}
+
+/// preparation layer number `k`: a different generic single-qubit state on every qubit
+fn prep_layer(n: usize, k: usize, salt: u64) -> Vec<Vec<csim::MGate>> {
+    use csim::{MGate, GK};
+    (0..n)
+        .map(|q| {
+            let x = crate::engine::mix(salt, (k * 64 + q) as u64);
+            let a = 1 + (x % 7) as i64; // never 0: keeps the states generic
+            let b = ((x >> 8) % 8) as i64;
+            vec![
+                MGate::new(GK::H, vec![q]),
+                MGate::ph(GK::Rz, vec![q], crate::oracle::diag::norm_phase((a, 4))),
+                MGate::new(GK::H, vec![q]),
+                MGate::ph(GK::Rz, vec![q], crate::oracle::diag::norm_phase((b, 4))),
+            ]
+        })
+        .collect()
+}
+
+fn run_state(n: usize, parts: &[&[csim::MGate]]) -> Result<Vec<Zw>, String> {
+    let gates: Vec<csim::MGate> = parts.iter().flat_map(|p| p.iter().cloned()).collect();
+    let t = csim::simulate_state::<Zw>(&Circ { n, gates }).map_err(|e| format!("{e:?}"))?;
+    Ok(t.data)
+}
+
+fn verify_extracted_wide(orig: &Circ, ext: &Circuit, up_to_perm: bool, salt: u64, what: &str, obs: &mut Obs) -> Result<(), String> {
+    let n = orig.n;
+    if ext.num_qubits() != n {
+        return Err(format!("{what}: extracted circuit has {} qubits, the source has {n}", ext.num_qubits()));
+    }
+    for g in &ext.gates {
+        if !allowed_gate(g.t) {
+            return Err(format!("{what}: extracted circuit contains a {:?} gate", g.t));
+        }
+        if g.qs.iter().any(|&q| q >= n) {
+            return Err(format!("{what}: extracted gate on a qubit out of range: {g:?}"));
+        }
+    }
+    let emodel = Circ::from_quizx(ext).ok_or("unknown gate")?;
+    // the input permutation pi: U_orig = c * U_ext * P_pi
+    let mut pi: Vec<usize> = (0..n).collect();
+    if up_to_perm {
+        let eadj = adjoint_model(&emodel);
+        for j in 0..n {
+            let x = [csim::MGate::new(csim::GK::X, vec![j])];
+            let v = run_state(n, &[&x, &orig.gates, &eadj.gates])?;
+            let nz: Vec<usize> = (0..v.len()).filter(|&i| !v[i].is_zero()).collect();
+            let single = nz.len() == 1 && nz[0].count_ones() == 1;
+            if !single {
+                return Err(format!(
+                    "{what}: up-to-permutation extraction: U_ext^dagger U_orig does not map the basis state with only qubit {j} set to another such state; extracted = {}",
+                    ext.to_string().replace('\n', " ")
+                ));
+            }
+            pi[j] = n - 1 - nz[0].trailing_zeros() as usize;
+        }
+        let mut seen = vec![false; n];
+        for &q in &pi {
+            if seen[q] {
+                return Err(format!("{what}: up-to-permutation extraction: U_ext^dagger U_orig is not a qubit permutation ({pi:?})"));
+            }
+            seen[q] = true;
+        }
+        obs.class_if(pi.iter().enumerate().any(|(i, &q)| i != q), "final-permutation-nontrivial");
+    }
+    // product-state probes, all with one common scalar
+    let mut all_o: Vec<Zw> = vec![];
+    let mut all_e: Vec<Zw> = vec![];
+    for k in 0..3 {
+        let layers = if k == 0 { vec![vec![]; n] } else { prep_layer(n, k, salt) };
+        let prep_o: Vec<csim::MGate> = layers.iter().flatten().cloned().collect();
+        let prep_e: Vec<csim::MGate> = layers
+            .iter()
+            .enumerate()
+            .flat_map(|(q, l)| {
+                l.iter().cloned().map(move |mut g| {
+                    g.qs = vec![q];
+                    g
+                })
+            })
+            .map(|mut g| {
+                g.qs = vec![pi[g.qs[0]]];
+                g
+            })
+            .collect();
+        all_o.extend(run_state(n, &[&prep_o, &orig.gates])?);
+        all_e.extend(run_state(n, &[&prep_e, &emodel.gates])?);
+    }
+    if !(proportional_exact(&all_e, &all_o) && all_e.iter().any(|x| !x.is_zero())) {
+        return Err(format!(
+            "{what}: extracted circuit{} maps |0..0> and two random product states differently from the source (not one common scalar); extracted = {}",
+            if up_to_perm { format!(" (with the input permutation {pi:?} read off single-excitation probes)") } else { String::new() },
+            ext.to_string().replace('\n', " ")
+        ));
+    }
+    Ok(())
+}
+
+fn check_backend_wide<G: GraphLike + ToCircuit>(c: &Circ, backend: &str, salt: u64, obs: &mut Obs) -> Result<(), String> {
+    let qc = c.to_quizx();
+    for simp in [Simp::Clifford, Simp::Full, Simp::Flow] {
+        let mut g: G = guarded("to_graph", || qc.to_graph())?;
+        guarded(&format!("{backend}: {simp:?} simplification"), || match simp {
+            Simp::Flow => {
+                quizx::simplify::flow_simp(&mut g);
+            }
+            Simp::Clifford => {
+                quizx::simplify::clifford_simp(&mut g);
+            }
+            Simp::Full => {
+                quizx::simplify::full_simp(&mut g);
+            }
+        })?;
+        let mut exts = vec![Ext::Gflow, Ext::SimpleGauss];
+        if simp == Simp::Flow {
+            exts.push(Ext::NoGauss);
+        }
+        for ext in exts {
+            for perm in [false, true] {
+                let what = format!("{backend}: {simp:?}+{ext:?}{}", if perm { "+up_to_perm" } else { "" });
+                let mut h = g.clone();
+                let r = guarded(&what, || {
+                    let mut e = h.extractor();
+                    match ext {
+                        Ext::Gflow => e.gflow(),
+                        Ext::SimpleGauss => e.gflow_simple_gauss(),
+                        Ext::NoGauss => e.flow(),
+                    };
+                    if perm {
+                        e.up_to_perm();
+                    }
+                    e.extract()
+                })?;
+                let circ = r.map_err(|e| format!("{what}: extraction failed: {}", e.0))?;
+                verify_extracted_wide(c, &circ, perm, salt, &what, obs)?;
+            }
+        }
+    }
+    Ok(())
+}
+
+fn check_lib_wide(case: &Case, obs: &mut Obs) -> Result<(), String> {
+    let c = case.circ.to_circ();
+    if nontrivial(&c) && c.n >= 7 {
+        obs.nontrivial();
+    }
+    obs.class_if(c.n >= 7, "qubits>=7");
+    obs.class_if(c.n >= 8, "qubits>=8");
+    let salt = {
+        use std::hash::{Hash, Hasher};
+        let mut h = std::collections::hash_map::DefaultHasher::new();
+        c.hash(&mut h);
+        h.finish()
+    };
+    check_backend_wide::<quizx::vec_graph::Graph>(&c, "vec", salt, obs)?;
+    check_backend_wide::<quizx::hash_graph::Graph>(&c, "hash", salt, obs)?;
+    obs.classes.sort();
+    obs.classes.dedup();
+    Ok(())
+}
+
 fn nontrivial(c: &Circ) -> bool {
     c.n >= 2
         && c.gates.iter().any(|g| g.k.is_entangling())
@@ -396,6 +583,30 @@ pub fn def(ctx: &Ctx) -> PropertyDef {
         sections: vec![
             Section::random("lib-exact", ctx.cases(1200, 40000), mk(Palette::ExactT, t.pick(5, 6), t.pick(24, 40), false), check_lib),
             Section::random("lib-general", ctx.cases(500, 15000), mk(Palette::General, t.pick(4, 5), t.pick(20, 30), false), check_lib),
+            Section::random(
+                "lib-wide",
+                ctx.cases(100, 4000),
+                move || {
+                    circ_spec(CircParams {
+                        min_q: 7,
+                        max_q: t.pick(8, 9),
+                        max_gates: t.pick(80, 120),
+                        kinds: {
+                            let mut k = unitary_kinds();
+                            // dense frontiers: many two- and three-qubit gates
+                            k.push((4, csim::GK::Cx));
+                            k.push((3, csim::GK::Cz));
+                            k.push((2, csim::GK::Ccz));
+                            k.push((1, csim::GK::Ccx));
+                            k
+                        },
+                        palette: Palette::ExactT,
+                        max_var: 0,
+                    })
+                    .prop_map(|circ| Case { circ })
+                },
+                check_lib_wide,
+            ),
             Section::random("cli", ctx.cases(120, 3000), mk(Palette::ExactT, 4, 20, true), check_cli),
             Section::random("cli-general", ctx.cases(40, 1000), mk(Palette::General, 3, 12, true), check_cli),
         ],
